@@ -130,6 +130,7 @@ type Exec struct {
 	TotalSteps   int64
 	assertLabels map[string]int
 
+	fmtCache map[string]*Term
 	fnInfos  map[*ssa.Function]*fnInfo
 	actions  map[*ssa.Function]*fnAction
 	typeByNm map[string]types.Type
